@@ -19,7 +19,7 @@ from engine.fakes_dist import World, View, ServerView, position, nm, tok, same, 
 import aioslsk.distributed as dist_mod
 from aioslsk.constants import DEFAULT_PARENT_MIN_SPEED, DEFAULT_PARENT_SPEED_RATIO
 from aioslsk.distributed import DistributedNetwork, DistributedPeer
-from aioslsk.network.connection import ConnectionState, PeerConnectionType, PeerConnection, DataConnection
+from aioslsk.network.connection import ConnectionState, PeerConnectionType, PeerConnection, DataConnection, ListeningConnection
 from aioslsk.network.network import Network
 from aioslsk.protocol.messages import (
     DistributedBranchLevel, DistributedBranchRoot, GetUserStats, ParentMinSpeed, ParentSpeedRatio, PotentialParents,
@@ -244,9 +244,12 @@ def apply_event(c, w: World, g: Ghost, kind, conn=None, tag='', stall_new=0):
         w.ev_close(conn)
     elif kind in ('incoming', 'outgoing'):
         u = tok(c, f'u_new{tag}', 1)
+        if stall_new > 0:
+            # through the real accept path: ListeningConnection.accept -> Network.on_peer_accepted -> PeerInitializedEvent;
+            # the connection is UNINITIALIZED until the (suspended) accept callback returns
+            nc, _ = w.accept_incoming(u, hang_from=stall_new)
+            return nc
         nc = w.new_peer_conn(u, incoming=(kind == 'incoming'))
-        nc.fake_writer.hang_drain = stall_new > 0
-        nc.fake_writer.hang_from = stall_new
         w.ev_peer_initialized(nc, requested=(kind == 'outgoing'))
         return nc
     elif kind == 'connect_ok':
@@ -406,7 +409,8 @@ def h_overlap(c, roles, stall, e1):
                 kind = c.pick(OVERLAP_EVENTS, 'event2')
             conn = None
             if kind in PEER_EVENTS:
-                senders = [i for i in sorted(conns) if conns[i].state is ConnectionState.CONNECTED]
+                # (a connection that is still inside its accept callback is open and can send / close as well)
+                senders = [i for i in sorted(conns) if conns[i].state in (ConnectionState.CONNECTED, ConnectionState.UNINITIALIZED)]
                 if not senders:
                     w.cleanup()
                     return
@@ -427,6 +431,43 @@ def h_overlap(c, roles, stall, e1):
         what = {'server': 'server', 'new_child': 'send_to_new_child', 'new_child_root': 'send_to_new_child'}.get(stall) \
             or 'close_of_' + roles[stall]
         g.check(['overlap', what] + sigs[0] + sigs[1])
+        w.cleanup()
+
+
+# -------------------------------------------------------------------------------------
+# H1c: a child socket misbehaves while a new position is fanned out to the children.  The parent announces a new
+# level / root or is lost (e1); fault = ['drain_error', i] / ['write_error', i]: the socket of child i fails on that
+# write (the connection code closes it, _remove_child runs while the fan-out is in flight); ['stall_close', k, j]:
+# the socket of child k does not drain, child j closes meanwhile, then k recovers.  Every remaining child must have
+# been told the position derived from the current parent.
+# -------------------------------------------------------------------------------------
+
+def h_fanout_fault(c, roles, e1, fault):
+    with IntShim(c.symbolic):
+        w = World(c)
+        dn = w.dn
+        conns, peers, g = build_pre_state(c, w, roles, [], concrete_names=True)
+        parent_conn = conns[roles.index('parent')]
+        kind = fault[0]
+        if kind in ('drain_error', 'write_error'):
+            conns[fault[1]].fake_writer.fault = 'drain' if kind == 'drain_error' else 'write'
+        else:
+            conns[fault[1]].fake_writer.hang_drain = True
+        ev = ev_sig(dn, e1, parent_conn)[:1]
+        apply_event(c, w, g, e1, parent_conn, tag='_0')
+        if kind == 'stall_close':
+            c.reach('stalled' if w.loop.pending_tasks() else 'not_stalled')
+            apply_event(c, w, g, 'close', conns[fault[2]], tag='_1')
+            conns[fault[1]].fake_writer.release()
+            w.settle()
+        for conn in conns.values():
+            conn.fake_writer.fault = None
+        c.reach('fanout_fault_' + kind)
+        g.check(['fanout_fault', kind] + ev)
+        # the tree keeps working: the next announcement / loss reaches every child that is left
+        if dn.parent is not None:
+            apply_event(c, w, g, 'level', parent_conn, tag='_2')
+            g.check(['fanout_fault', 'after_' + kind] + ev)
         w.cleanup()
 
 
@@ -521,7 +562,8 @@ FUNCS = [DistributedNetwork._get_advertised_branch_values, DistributedNetwork.ge
          DistributedNetwork._cancel_potential_parent_tasks,
          DataConnection.queue_message, DataConnection.queue_messages, DataConnection.send_message, DataConnection._send,
          DataConnection.disconnect, Network.on_state_changed, Network.on_message_received, Network.send_server_messages,
-         Network.remove_peer_connection]
+         Network.remove_peer_connection, Network.on_peer_accepted, Network._finalize_peer_connection, ListeningConnection.accept,
+         DataConnection.receive_message_object, DataConnection.receive_message, DataConnection._read_message]
 
 META = {
     'level': 'other',
@@ -541,6 +583,9 @@ META = {
     'stubs': ['Network built with object.__new__: only _event_bus, peer_connections, server_connection, _MESSAGE_MAP={}, '
               '_expected_response_futures=[] are set; its real on_state_changed/on_message_received/send_server_messages/remove_peer_connection run',
               'Network.create_peer_connection -> future completed by the harness (emits PeerInitializedEvent(requested=True) from inside the task, as _make_direct_connection does)',
+              'fan-out fault harness: FakeWriter.write / drain raise ConnectionResetError once, or drain waits until released (environment faults, kept in replay)',
+              'new-child stalls: the child comes in through the real ListeningConnection.accept / Network.on_peer_accepted on a FakeReader that delivers the PeerInit bytes '
+              '(symbolic runs: decode_message_data of that connection returns the PeerInit object carrying the name token)',
               'StreamWriter -> recording FakeWriter (drain/wait_closed return at once; in the overlap harness one of them waits until the harness releases it)',
               'symbolic runs only: Settings.credentials.username -> own-name token (delegating wrapper around the real Settings)',
               'symbolic runs only: connection.encode_message_data -> identity (frames are the message objects); concrete replay serialises with the real codec and decodes the frames back',
@@ -553,13 +598,14 @@ META = {
     'discriminants': ['role of each of the 3..4 peers (absent / candidate / child / parent / connecting)', 'event kind (12)', 'sender',
                       'session present or not', 'which of level/root the sender announced before', 'length of the potential-parent cache (0..2) and of a list (1..2)',
                       'number of children in the limit harness (0..3)',
+                      'fan-out fault harness: which child socket fails (write / drain error) or stalls, which child closes meanwhile, which parent event (level / root / loss)',
                       'overlap harness: which socket stalls (server drain / close of one peer connection / the socket of a freshly accepted child at its first or second frame), the two overlapping events'],
     'bounds': {'quick': {'peers': 3, 'step': 'every role assignment over absent/cand/child/parent x session yes/no x every event x every sender',
                          'sequence_length': 4, 'overlap': '2 role assignments x every stalled socket x first event in {level, close} x every second event; '
                                                           'slow socket of a new child: 3 role assignments x every second event (sender may be the new child)'},
                'thorough': {'peers': 4, 'step': 'every role assignment over 5 roles x session yes/no x every event x every sender', 'sequence_length': 5,
                             'overlap': 'every 3-peer role assignment x every stalled socket (incl. the slow socket of a new child) x every pair of events'}},
-    'outside': ['more than two events overlapping in time; schedules other than FIFO (overlap is produced by a stalled socket only)',
+    'outside': ['more than one failing / stalled child socket per fan-out', 'more than two events overlapping in time; schedules other than FIFO (overlap is produced by a stalled socket only)',
                 'send failures / write errors', 'settings.debug.search_for_parent = False',
                 'a parent announcing level 2^32-1 (level+1 does not fit the wire format; the serialiser drops the message)',
                 'parent_speed_ratio = 0 (ZeroDivisionError inside _on_get_user_stats, swallowed by EventBus.emit)',
@@ -609,6 +655,16 @@ def jobs(tier):
             for e1 in (('level', 'close') if tier == 'quick' else OVERLAP_EVENTS):
                 out.append({'harness': 'overlap', 'fn': h_overlap, 'params': {'roles': t, 'stall': stall, 'e1': e1},
                             'requires': ['overlapped'] if (stall == 'server' and e1 == 'level' and 'parent' in t) else []})
+    ff_roles = [['parent', 'child', 'child', 'child']] if tier == 'quick' else \
+        [['parent', 'child', 'child', 'child'], ['child', 'parent', 'child', 'child'], ['parent', 'child', 'child', 'cand']]
+    for t in ff_roles:
+        kids = [i for i, r in enumerate(t) if r == 'child']
+        faults = [['drain_error', i] for i in kids] + [['write_error', i] for i in kids[:-1]] \
+            + [['stall_close', k, j] for k in kids for j in kids if j <= k]
+        for e1 in ('level', 'root', 'close'):
+            for f in faults:
+                out.append({'harness': 'fanout_fault', 'fn': h_fanout_fault, 'params': {'roles': t, 'e1': e1, 'fault': f},
+                            'requires': ['fanout_fault_' + f[0], 'quiescent'] + (['stalled'] if f[0] == 'stall_close' else [])})
     # a slow socket of a freshly accepted child: the send of our position to it overlaps with a second event
     nc_roles = [['child', 'absent', 'absent'], ['parent', 'child', 'absent'], ['parent', 'absent', 'absent']] if tier == 'quick' \
         else list(_role_tuples(3, ('absent', 'cand', 'child', 'parent')))
